@@ -1079,6 +1079,7 @@ main(int argc, char *argv[])
 	ex_wd_init(1000);
 	held_baseline();
 	stream_baseline();
+	leak_baseline();
 
 	if (ex.cas) {
 		int a, b, c, d, e;
@@ -1102,6 +1103,14 @@ main(int argc, char *argv[])
 		if (sscanf(ex.cas, "stream %d %d", &a, &b) == 2 && a >= 1 && a < nl && b >= 0 && b < NSFMT) {
 			int f = do_stream_lib(a, b, 1);
 			return ex_replay_result(f != 0, "stream search under --from-locale %s, formats %s", mloc[a].name, sfmts[b].label);
+		}
+		if (sscanf(ex.cas, "leak %d %d", &a, &b) == 2 && a >= 1 && a < nl && b >= 0 && b < NLEAKIN) {
+			int f = do_leak_lib(a, b, 1);
+			return ex_replay_result(f != 0, "output locale %s, input locale %s: reading must be as without the output locale", mloc[a].name, mloc[leak_in[b]].name);
+		}
+		if (sscanf(ex.cas, "leakmain %d", &a) == 1 && a >= 1 && a < nl) {
+			int f = do_leak_main(a, 1);
+			return ex_replay_result(f != 0, "binaries with --locale %s against the runs without", mloc[a].name);
 		}
 		if (sscanf(ex.cas, "streammain %d", &a) == 1 && a >= 1 && a < nl) {
 			int f = do_stream_main(a, 1);
@@ -1182,6 +1191,11 @@ main(int argc, char *argv[])
 			}
 			if (sub) {
 				do_stream_main(L, 0);
+			}
+			do_leak_lib(L, -1, 0);
+			if (ex.thorough || !strcmp(mloc[L].name, "ja_JP") || !strcmp(mloc[L].name, "ru_RU") || !strcmp(mloc[L].name, "de_DE") ||
+			    !strcmp(mloc[L].name, "fr_FR") || !strcmp(mloc[L].name, "zh_CN") || !strcmp(mloc[L].name, "el_GR")) {
+				do_leak_main(L, 0);
 			}
 			++*c_traces;
 			if (ex_want_sample()) {
